@@ -4464,12 +4464,10 @@ class ParseCtx:
         name = from_tree.value
 
         if type(context) is not MacroArgumentKind:
-            # an argument of the innermost macro that uses this name wins over anything global, whatever its kind
-            for entry in reversed(self.bound_argument_stack):
-                bound_kinds = [bound_kind for bound_kind, bound_name in entry if bound_name == name]
-                if bound_kinds:
-                    context = [x for x in context if x in bound_kinds] + [x for x in context if x not in bound_kinds]
-                    break
+            # an argument of the macro whose body this is wins over anything global, whatever its kind
+            if self.bound_argument_stack:
+                bound_kinds = [bound_kind for bound_kind, bound_name in self.bound_argument_stack[-1] if bound_name == name]
+                context = [x for x in context if x in bound_kinds] + [x for x in context if x not in bound_kinds]
             for attempt in context:
                 try:
                     return self._lookup_named_entity(attempt, from_tree), attempt
@@ -4478,7 +4476,8 @@ class ParseCtx:
             raise UndefinedReferenceError(None, from_tree)
 
         # check if in bound argument stack (names inside an argument that were not the calling macro's own arguments are global)
-        for entry in reversed(self.bound_argument_stack) if id(from_tree) not in self.global_names_in_arguments else ():
+        # (only the arguments of the macro whose body this is: a macro body means the same thing wherever it is expanded)
+        for entry in self.bound_argument_stack[-1:] if id(from_tree) not in self.global_names_in_arguments else ():
             if (context, name) in entry:
                 bound = entry[(context, name)]
                 if context == MacroArgumentKind.EXPR and getattr(bound, "data", None) == "identifier_const" and bound.children[0].value == name:
